@@ -258,7 +258,7 @@ Definition model_obs (s : schema) : sx :=
 Definition order_of (M : cmodel) (names : list string) : list cls :=
   flat_map (fun n => match find_cls M n with Some c => [c] | None => [] end) names.
 Definition is_topo_b (M : cmodel) (order : list cls) : bool :=
-  str_nodup (map c_name order) && parents_first M [] order
+  str_nodup (map c_name order) && parents_first M [] order && graph_parents_first M [] order
   && str_subset (map c_name order) (class_names M) && str_subset (class_names M) (map c_name order).
 
 Definition case_gen (M : cmodel) (names : list string) : sx := gen_sx (gen M (order_of M names)).
